@@ -1011,6 +1011,11 @@ def _emit_fn(g, meta, tmpl, rel, src, m, ctx, name, kv, subs):
             if arg.strip() in ('start', 'end', 'tail'):
                 hints.append((arg.strip(), '', 0, content, lno))
                 continue
+            mo4 = re.match(r'loopstart\s+(\d+)\s*$', arg)
+            if mo4:
+                # first thing inside the body of loop #k (shape-independent: no statement text is named)
+                hints.append(('loopstart', '', int(mo4.group(1)), content, lno))
+                continue
             mo3 = re.match(r'(before|after)\s+`(.*)`\s*(?:#(\d+))?\s*$', arg)
             if not mo3:
                 raise ExtractError(f'{tmpl}:{lno}: bad at directive')
@@ -1040,6 +1045,11 @@ def _emit_fn(g, meta, tmpl, rel, src, m, ctx, name, kv, subs):
             continue
         if where == 'end':
             inserts.append((len(body), content))
+            continue
+        if where == 'loopstart':
+            if kk >= len(loops):
+                raise ExtractError(f'{name}: loop #{kk} not found ({len(loops)} loops) — anchor lost')
+            inserts.append((loops[kk][1] + 1, content))
             continue
         if where == 'tail':
             # just before the tail expression: after the last `;` at brace depth 0 of the body
